@@ -10,7 +10,7 @@
    bind (PyArgs/BindSpec.v) is Python's call-binding rule, tied to inspect.signature(f).bind. *)
 From Coq Require Import NArith List Bool String.
 From Verif Require Import Base.Chars Base.StrX PyArgs.Parse PyArgs.BindSpec PyArgs.DictProofs
-                          PyArgs.ParseProofs PyArgs.ScanProofs PyArgs.TopProofs.
+                          PyArgs.ParseProofs PyArgs.ScanProofs PyArgs.TopProofs PyArgs.EvalProofs.
 Import ListNotations.
 Local Open Scope list_scope.
 
@@ -25,6 +25,13 @@ Theorem C15_string_mode_identity : forall fx idok spec O argv stdin pos kw,
          (pos ++ map snd kw).
 Proof. exact string_mode_identity_proof. Qed.
 Print Assumptions C15_string_mode_identity.
+
+(* ... and nothing is evaluated: the result of string mode (values and errors alike) is the same
+   whatever any string would evaluate to *)
+Theorem C15_string_mode_never_evaluates : forall fx idok spec O1 O2 argv stdin,
+  parse fx idok spec MString O1 argv stdin = parse fx idok spec MString O2 argv stdin.
+Proof. exact string_mode_never_evaluates_proof. Qed.
+Print Assumptions C15_string_mode_never_evaluates.
 
 (* everything after the first `--` becomes raw positional strings, in order, in every mode *)
 Theorem C15_after_dashdash_raw : forall fx idok spec md pre stdin g1 e1 rest,
@@ -46,6 +53,15 @@ Theorem C15_auto_is_eval_or_raw : forall fx idok spec O argv stdin pos kw,
          (pos ++ map snd kw).
 Proof. exact auto_is_eval_or_raw_proof. Qed.
 Print Assumptions C15_auto_is_eval_or_raw.
+
+(* F22 (`py f 1/0`): the command terminates while the arguments are parsed only if the mode
+   evaluates and the oracle says that evaluating one of the original strings (in auto mode: one
+   that is an expression) terminates it; then parse is an error: no value reaches the function *)
+Theorem C15_exit_only_from_evaluation : forall fx idok spec md O argv stdin c,
+  parse fx idok spec md O argv stdin = Err (EExit c) ->
+  md <> MString /\ exists s, orig argv s /\ snd (O s) = RExit c /\ (md = MAuto -> fst (O s) = Expr).
+Proof. exact exit_only_from_evaluation_proof. Qed.
+Print Assumptions C15_exit_only_from_evaluation.
 
 (* ---- options bind like the equivalent keyword call ---- *)
 
